@@ -4,7 +4,7 @@ use dicom_core::PrimitiveValue;
 use serde::Serialize;
 use serde::ser::SerializeSeq;
 
-use crate::{INFINITY, NAN, NEG_INFINITY};
+use crate::{DicomJson, INFINITY, NAN, NEG_INFINITY};
 
 /// Wrapper type for [primitive values][1]
 /// which should always be encoded as strings.
@@ -29,6 +29,11 @@ impl Serialize for AsStrings<'_> {
     where
         S: serde::Serializer,
     {
+        if let PrimitiveValue::Tags(tags) = self.0 {
+            // attribute tags are encoded as 8 hexadecimal digits ("GGGGEEEE"),
+            // unlike their standard text form
+            return serializer.collect_seq(tags.iter().map(|tag| DicomJson::from(*tag)));
+        }
         let strings = self.0.to_multi_str();
         serializer.collect_seq(&*strings)
     }
